@@ -9,6 +9,7 @@ require (
 	github.com/cometbft/cometbft v0.38.12
 	github.com/cosmos/cosmos-sdk v0.50.10
 	github.com/ethereum/go-ethereum v1.10.17
+	golang.org/x/crypto v0.26.0
 	mods.irisnet.org/modules/mt v0.0.0-20241202072418-ae2ffd0c842e
 	mods.irisnet.org/modules/nft v0.0.0-20241202072418-ae2ffd0c842e
 )
@@ -164,7 +165,6 @@ require (
 	go.opentelemetry.io/otel v1.24.0 // indirect
 	go.opentelemetry.io/otel/metric v1.24.0 // indirect
 	go.opentelemetry.io/otel/trace v1.24.0 // indirect
-	golang.org/x/crypto v0.26.0 // indirect
 	golang.org/x/exp v0.0.0-20240404231335-c0f41cb1a7a0 // indirect
 	golang.org/x/net v0.28.0 // indirect
 	golang.org/x/oauth2 v0.21.0 // indirect
